@@ -235,5 +235,23 @@ def leaf_order(ck, prog):
             ck.ob("L", f"{owner}:leaves-write#{n_w}", ok,
                   f"{owner} stores a leaf at the slot looked up in a position map (caller order), not at a loop counter over the sorted list",
                   loc=f.loc(b, "T"))
+    # a builder that stores no leaf through the position map at all but APPENDS leaves (in whatever order it walks the positions) has
+    # the sorted-order layout by construction
+    for f0 in (prog.fn(BMP + "::from_paths"), prog.fn(MT + "::prove_batch")):
+        f = prog.inl(f0)
+        fam = [f] + [prog.fns[cid] for b, t in f.calls() for cid in f.closure_args(t) if cid in prog.fns]
+        mapped = pushed = 0
+        for ff in fam:
+            for b, t in ff.calls():
+                cn = callee_name(t) or ""
+                if cn.endswith("IndexMut::index_mut") and is_leaf_vec(t):
+                    mapped += 1
+                ta = ((t.get("fn") or {}).get("targs") or [""])[0]
+                if cn.endswith("Vec::push") and "Digest" in ta and "Vec<" not in ta.split("Digest")[0][4:]:
+                    pushed += 1
+        if mapped == 0:
+            ck.ob("L", f"{f0.nname.split('::')[-1]}:leaves-by-position", False,
+                  f"{f0.nname.split('::')[-1]} places every leaf at the slot the position map gives for it (caller order); it appends leaves instead "
+                  f"({pushed} push site(s)), i.e. stores them in the order it walks the positions", loc=f0.loc())
     ck.floor("reads of BatchMerkleProof.leaves", n_r, 6)
-    ck.floor("writes of a leaves vector under construction", n_w, 3)
+    ck.floor("writes of a leaves vector under construction", n_w, 2)
